@@ -511,3 +511,46 @@ Lemma path_ext (G1 G2 : digraph name) :
 Proof.
   intros H x y. split; apply path_mono; intros a b Hab; apply H, Hab.
 Qed.
+
+Arguments depends_on_itself_spec {parse k g} HI d _.
+Arguments dep_loop_spec {parse k g} HI d fuel checked to_check _ _ _ _ _.
+
+(** a validated, accepted add keeps the directed part acyclic *)
+Lemma added_edge_acyclic parse k g g' sp dp ty :
+  Inv parse k g' -> Acyclic g -> added_edge g g' sp dp ty true -> Acyclic g'.
+Proof.
+  intros HI' Hac (e & Hg & Hty & _ & Hdep). specialize (Hdep eq_refl).
+  assert (Hd : In (edst e) (node_ids g')).
+  { apply (inv_endpoints HI' e). rewrite Hg. apply in_or_app; right; left; reflexivity. }
+  destruct (depends_on_itself_spec HI' (edst e) Hd) as (b & Hb & Hiff).
+  rewrite Hdep in Hb. injection Hb as <-.
+  assert (Hnp : ~ path (dgraph g') (edst e) (edst e)).
+  { intros Hp. apply Hiff in Hp. discriminate. }
+  intros v Hv.
+  destruct (etype_eqb_spec (ety e) Dir) as [HD|HnD].
+  - assert (Hext : forall a b, arc (dgraph g') a b
+                               <-> arc (add_arc (dgraph g) (esrc e) (edst e)) a b).
+    { intros a b. rewrite (arc_app g g' e Hg), add_arc_arc. split.
+      - intros [H|(_ & <- & <-)]; [left; exact H|right; split; reflexivity].
+      - intros [H|[-> ->]]; [left; exact H|right; repeat split; exact HD]. }
+    apply (path_ext _ _ Hext) in Hv.
+    apply Hnp. apply (path_ext _ _ Hext).
+    eapply cycle_through_new_arc; [exact Hv|apply Hac].
+  - apply (Hac v). revert Hv. apply path_mono. intros a b Hab.
+    apply (arc_app g g' e Hg) in Hab. destruct Hab as [H|[H _]]; [exact H|contradiction].
+Qed.
+
+(** whatever the flag, an add_edge call changes the arcs by at most the requested one *)
+Lemma add_edge_arcs parse k g sp dp ty m v r gl :
+  add_edge parse k g sp dp ty m v = (r, gl) ->
+  forall a b, arc (dgraph gl) a b ->
+              arc (dgraph g) a b \/ (ty = Dir /\ a = fst sp /\ b = fst dp).
+Proof.
+  intros H a b Hab. pose proof (add_edge_shape _ _ _ _ _ _ _ _ _ _ H) as Hs.
+  destruct r as [g'|x].
+  - destruct Hs as [-> (e & Hg & Hty & Hdir & _)].
+    apply (arc_app g g' e Hg) in Hab. destruct Hab as [Hab|(HD & <- & <-)]; [left; exact Hab|].
+    right. assert (Hty' : ty = Dir) by congruence. destruct (Hdir Hty') as [-> ->].
+    repeat split; assumption.
+  - left. revert Hab. apply incl_sub_arcs, Hs.
+Qed.
